@@ -177,13 +177,20 @@ def _plain_text(tokens):
     return None
 
 
-def expected_top_choices(story, st, sec=None):
+def expected_top_choices(story, st, sec=None, own_used=None):
     """Top-level choices of the current passage/section that should be offered in the CURRENT
     variables; entries are (target, args, sticky, text or None); None = cannot be decided here."""
     pid = st["out"]["pid"]
     p = story["passages"].get(pid)
-    if p is None or p.get("params"):
+    if p is None:
         return None
+    env = st["vars"]
+    if p.get("params"):
+        # the passage recorded its parameters on entry (probe `lk_<pid> = dict(_local)`): conditions see them over the globals
+        lk = st["vars"].get("lk_" + pid)
+        if not isinstance(lk, dict) or set(lk) != {q["name"] for q in p["params"]} or own_used is None:
+            return None
+        env = dict(st["vars"], **lk)
     if sec is None:
         sec = st["join"].get(pid, 0)
     exp = []
@@ -194,10 +201,10 @@ def expected_top_choices(story, st, sec=None):
         if not c.get("sticky", True):
             if txt is None:
                 return None
-            if f"{pid}:{txt}:{c['target']}" in st["used"]:
+            if f"{pid}:{txt}:{c['target']}" in (own_used if own_used is not None else st["used"]):
                 continue
         cond = c.get("condition")
-        if cond and not _eval_cond(cond, st["vars"]):
+        if cond and not _eval_cond(cond, env):
             continue
         exp.append((c["target"], c.get("args", ""), c.get("sticky", True), txt))
     return exp
@@ -213,8 +220,23 @@ def oracle_c02(case):
     states = [(-1, {"op": "init"}, {"out": prev["out"]}, prev)] + \
         [(i, op, s["resp"], s["state"]) for i, (op, s) in enumerate(zip(case["ops"], real["steps"]))]
     exp_sec = 0      # the @join section the player is in, tracked independently of the engine
+    own_used = set()  # one-time choices taken, as (passage they were shown in : text : target) — kept by the oracle itself
+    own_past = []
     for i, op, resp, st in states:
         name = op["op"]
+        if own_used is None:
+            pass
+        elif name == "choose" and prev.get("out") and 0 <= op["i"] < len(prev["out"]["choices"]):
+            own_past.append(set(own_used))
+            own_past = own_past[-50:]
+            ch0 = prev["out"]["choices"][op["i"]]
+            if not ch0["sticky"]:
+                own_used.add(f"{prev['out']['pid']}:{ch0['text']}:{ch0['target']}")
+        elif name == "undo" and resp.get("ret") is True:
+            own_used = own_past.pop() if own_past else None
+        if name in ("redo", "load", "fresh_load", "load_doc", "load_bad", "reset_one_time"):
+            # (also when a load raises: loading re-enters the saved passage after the game was replaced, finding C05-F1)
+            own_used = None      # beyond this oracle's own bookkeeping from here on (the engine's record is used instead)
         if name in ("init", "goto") and "out" in resp:
             exp_sec = 0
         elif name == "choose" and "out" in resp:
@@ -249,19 +271,24 @@ def oracle_c02(case):
                     k = "n_" + tgt
                     if k in st["vars"] and isinstance(st["vars"][k], int) and st["vars"][k] != prev["vars"].get(k, 0) + 1 and not case.get("cycles"):
                         out.append(fail(i, f"choose({idx}) did not enter its target {tgt} exactly once"))
+        # the output of a navigation names the passage the game is in
+        if name in ("init", "choose", "goto") and "out" in resp and st.get("out") and resp["out"]["pid"] != st["cur"]:
+            out.append(fail(i, f"{name} returned an output for passage {resp['out']['pid']} but the game is in {st['cur']}"))
         # offered choices are exactly the enabled ones (top-level part), whenever a navigation produced them
         if name in ("init", "choose", "goto") and "out" in resp and st.get("out"):
             hooks_now = bool(st["hooks"].get("turn_end")) and name == "choose"
-            exp = expected_top_choices(story, st, exp_sec) if exp_sec is not None else None
+            exp = expected_top_choices(story, st, exp_sec, own_used) if exp_sec is not None else None
             got = [(c["target"], c["args"], c["sticky"], c["text"]) for c in st["out"]["choices"] if not c["block"]]
             if exp is not None and st["out"]["pid"] == st["cur"]:
                 exp_cmp = [(t, a, s_) for (t, a, s_, _) in exp]
                 got_cmp = [(t, a, s_) for (t, a, s_, _) in got]
                 if exp_cmp != got_cmp:
+                    # C02-F2: the passage shown was reached through a jump chain that went through ANOTHER, parameterised passage
+                    final = st["out"]["pid"]
                     if prev is not st:
-                        leaked = any(p.get("params") and _entered(prev, st, pid) for pid, p in story["passages"].items())
+                        leaked = any(p.get("params") and pid != final and _entered(prev, st, pid) for pid, p in story["passages"].items())
                     else:       # the constructor's own chain: Start -> P(args) -> …
-                        leaked = any(p.get("params") and isinstance(st["vars"].get("n_" + pid), int) and st["vars"]["n_" + pid] > 0
+                        leaked = any(p.get("params") and pid != final and isinstance(st["vars"].get("n_" + pid), int) and st["vars"]["n_" + pid] > 0
                                      for pid, p in story["passages"].items())
                     cls = "C02-stale-after-hook" if hooks_now else ("C02-leaked-scope" if leaked else None)
                     out.append(fail(i, f"offered top-level choices {got_cmp} but enabled ones are {exp_cmp}", cls))
@@ -468,6 +495,9 @@ def oracle_c09(case):
         st, resp, name = step["state"], step["resp"], op["op"]
         if name == "save" and not is_raise(resp):
             saved.append((copy.deepcopy(st["hooks"]), st.get("cur")))
+            dh = (resp.get("doc") or {}).get("hooks")
+            if dh is not None and {k: v for k, v in dh.items() if v} != {k: v for k, v in st["hooks"].items() if v}:
+                out.append(fail(i, f"the save document lists the hooks as {dh}, the running game has {st['hooks']} (order is run order)"))
         if name in ("load", "fresh_load") and not is_raise(resp) and 0 <= op.get("slot", -1) < len(saved):
             want, pos = saved[op["slot"]]
             # (loading re-enters the saved passage — finding C05-F1 — so a passage that itself hooks / unhooks or jumps on is left out)
